@@ -46,7 +46,12 @@ open C10Rprmps in
     * `tnvalued m R C f …` (`m` = `c` or `r`) → `ok v`: the evaluation `_coset_probabilities` performs in that mode
       (`contract(tn, stop=-1)`, `inner_product` with the last column);
     * `tnexact R C f …` → `ok v`: the literal sum over all bond-index assignments (refused above 2^22 terms);
-    * `tncoset R C f …` → `n`: `cosetProb` of `f` for the model's `RotatedPlanar.stabilizers R C`. -/
+    * `tncoset R C f …` → `n`: `cosetProb` of `f` for the model's `RotatedPlanar.stabilizers R C`. 
+    * `tnvalues R C mode f …` (mode c | r | a) → `ok trace v0,v1,v2,v3`: the PROCEDURE of
+      `RotatedPlanarRMPSDecoder._coset_probabilities` (`RotatedPlanarRmpsTn.cosetValuesC / R / A`: bras shared between
+      pairs of cosets); `trace` = the calls in execution order (`t` = the four `mps2d.transpose`,
+      `c<net>:start:stop:step` = a `mps2d.contract` on `tns[net]`, `i<net>` = an `inner_product` with the last column of
+      `tns[net]`); integers over `D^n` (modes c, r) or rationals `p/q` (mode a). -/
 def c10rprmps : List String → Option String
   | ["qnode", sh, se, sd, sf, a, b, c, d] => do
       let isH ← parseNat? sh
@@ -82,6 +87,20 @@ def c10rprmps : List String → Option String
   | ["tncoset", sR, sC, sf, a, b, c, d] => do
       let (R, C, f, dist) ← tnArgs? sR sC sf a b c d
       pure (toString (cosetProb dist (RotatedPlanar.stabilizers R C) f))
+  | ["tnvalues", sR, sC, mode, sf, a, b, c, d] => do
+      let (R, C, f, dist) ← tnArgs? sR sC sf a b c d
+      let showE {α : Type} (sh : α → String) (tr : String) (r : Except Tensor.Err (List α)) : String :=
+        match r with
+        | .ok vs => s!"ok {tr} " ++ ",".intercalate (vs.map sh)
+        | .error e => C11.showErr e
+      let showQ (q : Rat) : String := s!"{q.num}/{q.den}"
+      let trC := PlanarTn.planTrace RotatedPlanarRmpsTn.planCols
+      let trR := "t," ++ PlanarTn.planTrace RotatedPlanarRmpsTn.planRows
+      match mode with
+      | "c" => pure (showE (toString : Int → String) trC (RotatedPlanarRmpsTn.cosetValuesC R C dist f))
+      | "r" => pure (showE (toString : Int → String) trR (RotatedPlanarRmpsTn.cosetValuesR R C dist f))
+      | "a" => pure (showE showQ (trC ++ "," ++ trR) (RotatedPlanarRmpsTn.cosetValuesA R C dist f))
+      | _ => none
   | _ => none
 
 end Qec.Drv
